@@ -34,7 +34,7 @@ def finals(results, backend, tmpdir):
             import yaml
             with open(os.path.join(tmpdir, t.event_log)) as f:
                 evs = yaml.safe_load(f) or []
-            nh = sum(1 for e in evs if e["event"] == "hop")
+            nh = sum(1 for e in evs if e.get("event") == "hop")
         out.append((float(t.weight), int(last["active"]), bool(last["position"][0] < 0.0), nh))
     return out
 
